@@ -52,7 +52,14 @@ Tick == /\ cache # None
         /\ cache' = Newest /\ seen' = {Newest}
         /\ hist' = Append(hist, Ev("tick", 0, None))
         /\ UNCHANGED <<pub, gens>>
-Next == (\E r \in Rel : Publish(r) \/ Commit(r)) \/ Select \/ Tick
+\* the selector is handed on as a copy of itself (pickled to another process, deep-copied into a descriptor) after it has
+\* served: the copy is a selector of the same configuration - at the implementation level it starts cold (no cached pick,
+\* its own refresher starts with its first request)
+Copy == /\ cache # None
+        /\ cache' = None /\ seen' = {}
+        /\ hist' = Append(hist, Ev("copy", 0, None))
+        /\ UNCHANGED <<pub, gens>>
+Next == (\E r \in Rel : Publish(r) \/ Commit(r)) \/ Select \/ Tick \/ Copy
 Spec == Init /\ [][Next]_vars
 
 Bound == Len(hist) <= Depth
